@@ -16,6 +16,8 @@ ASSUME = ["`create` output is taken as the chain's starting value (its correctne
 
 
 def run(tier):
-    stages = [("MCToolChain", "MCToolChain_quick.cfg" if tier == "quick" else "MCToolChain_t1.cfg", "toolchain")]
+    # the thorough chains (three steps) are tens of thousands of real process pipelines: allow the replay three hours
+    stages = [("MCToolChain", "MCToolChain_quick.cfg", "toolchain")] if tier == "quick" else [
+        ("MCToolChain", "MCToolChain_t1.cfg", "toolchain", {"replay_timeout": 10800})]
     return standard("C07", tier, "model_checking", RULE, ASSUME, stages,
                     sabotage=[("MCToolChain", "MCToolChain_abHeader.cfg", ["DetectedAsWritten"])])
